@@ -525,6 +525,13 @@ class Proc(object):
             if m and ty == "Str":
                 return ("(%s %s)" % (m[0], t), "Str")
         if isinstance(f, ast.Attribute) and isinstance(f.value, ast.Call) and isinstance(f.value.func, ast.Name) and f.value.func.id == "super" \
+                and f.attr in self.spec.get("super_ops", {}):
+            # super(..).method(..) of a base class outside the repository (the standard library): a declared operation
+            lname, argtys, rty = self.spec["super_ops"][f.attr]
+            if len(argtys) != len(e.args):
+                raise Untranslatable("arity of super().%s" % f.attr)
+            return ("(%s %s)" % (lname, " ".join(self.coerce(*self.expr(a, env), w) for a, w in zip(e.args, argtys))), rty)
+        if isinstance(f, ast.Attribute) and isinstance(f.value, ast.Call) and isinstance(f.value.func, ast.Name) and f.value.func.id == "super" \
                 and f.attr in self.spec.get("super_calls", {}):
             # super(Class, self).method(...): the base class's method, translated on its own under the declared name
             target = self.procs[("name", self.spec["super_calls"][f.attr])]
@@ -681,6 +688,16 @@ class Proc(object):
                     return ("(%s %s)" % (m[0], recv), "Str")
                 if f.attr == "split" and len(e.args) == 1 and isinstance(e.args[0], ast.Constant) and isinstance(e.args[0].value, str) and len(e.args[0].value) == 1:
                     return ("(pySplit1 %s '%s')" % (recv, e.args[0].value), ("List", "Str"))
+        if isinstance(f, ast.Attribute) and f.attr == "replace" and len(e.args) == 2 and all(isinstance(a, ast.Constant) and isinstance(a.value, str) for a in e.args) \
+                and e.args[1].value == "" and len(e.args[0].value) == 1:
+            # text.replace(c, "") with a one-character constant: the text without that character
+            try:
+                recv, rty = self.expr(f.value, env)
+            except Untranslatable:
+                recv, rty = None, None
+            if rty == "Str":
+                ch = e.args[0].value
+                return ("(removeChar %s %s)" % (recv, {"\t": "'\\t'", " ": "' '"}.get(ch, "'%s'" % ch)), "Str")
         if self.seg(f) in self.spec.get("seg_ops", {}):
             # a call identified by its text (a method of a helper object the function creates): an operation handed to the translated function
             lname, argtys, rty = self.spec["seg_ops"][self.seg(f)]
@@ -1133,7 +1150,8 @@ class Proc(object):
         # key in d / key not in d  on a local dictionary: the branch where it is present knows d[key]
         if isinstance(e, ast.Compare) and len(e.ops) == 1 and isinstance(e.ops[0], (ast.In, ast.NotIn)) \
                 and isinstance(e.comparators[0], (ast.Name, ast.Attribute) if self.spec.get("narrow_attr_dicts") else ast.Name) \
-                and self.seg(e.comparators[0]) in env.vars and isinstance(env.vars[self.seg(e.comparators[0])][1], tuple) and env.vars[self.seg(e.comparators[0])][1][0] == "AssocL":
+                and self.seg(e.comparators[0]) in env.vars and isinstance(env.vars[self.seg(e.comparators[0])][1], tuple) \
+                and env.vars[self.seg(e.comparators[0])][1][0] in (("AssocL", "ODict") if self.spec.get("narrow_attr_dicts") else ("AssocL",)):
             d, dty = env.vars[self.seg(e.comparators[0])]
             key = self.coerce(*self.expr(e.left, env), dty[1])
             n = env.fresh("found")
@@ -2347,6 +2365,15 @@ PROCS = [
          ops={"_set_value": ("setValue", [("Rec", "IniRec"), ("Rec", "OvRec")], ("Except", "OvErr", ("Rec", "IniRec")))}, inout_calls={"_set_value": 0},
          raises=[("not found in configuration file when processing overrides", "OvErr.missing"), ("already exists in configuration file whilst adding", "OvErr.exists"),
                  ("cannot be added, the section name is empty", "OvErr.missing")]),
+    # ---- C15 / C14: what the repository's subclass adds to the standard library's parser: a section's options are its OWN entries
+    dict(name="raw_optionxform", file="config/_config_parser.py", func="_RawConfigParser.optionxform", params=[("option", "Str")], ret="Str",
+         implicit=[("strip", ("Fun", ["Str"], "Str"))], methods={("Str", "strip"): ("strip", [], "Str")}),
+    dict(name="raw_own_option", file="config/_config_parser.py", func="_RawConfigParser._own_option", narrow_attr_dicts=True,
+         params=[("self._sections", ("ODict", "Str", ("ODict", "Str", "Str"))), ("section", "Str"), ("option", "Str")], ret="Bool", implicit=[("strip", ("Fun", ["Str"], "Str"))]),
+    dict(name="raw_has_option", file="config/_config_parser.py", func="_RawConfigParser.has_option",
+         params=[("self._sections", ("ODict", "Str", ("ODict", "Str", "Str"))), ("self.default_section", "Str"), ("section", "Str"), ("option", "Str")], ret="Bool",
+         implicit=[("strip", ("Fun", ["Str"], "Str")), ("superHasOption", ("Fun", ["Str", "Str"], "Bool"))],
+         super_ops={"has_option": ("superHasOption", ["Str", "Str"], "Bool")}),
     # ---- C14: --list-items: which sections are listed, through which route, in which order
     dict(name="parsed_sections", file="config/_config_parser.py", func="ConfigParser.parsed_sections", class_dicts=["_section_map"], dict_as_list=True,
          params=[("self", ("Rec", "CpObj"))], ret=("List", "Str"), records=QA_REC, methods=QA_METHODS, implicit=QA_OPS, locals={"sections": ("List", "Str")}),
@@ -2857,6 +2884,9 @@ def orderedPairs {α : Type} (xs : List α) : List (α × α) :=
     if i = j then none else match xs[i]?, xs[j]? with
       | some a, some b => some (a, b)
       | _, _ => none
+
+/-- `s.replace(c, "")` -/
+def removeChar (s : String) (c : Char) : String := String.ofList (s.toList.filter fun x => x != c)
 
 /-- `sub in s` for texts (non-empty `sub`) -/
 def charsContain (sub : List Char) : List Char → Bool
